@@ -1,4 +1,5 @@
 import VlsModel.Lemmas.EnforcementC02
+import VlsModel.Lemmas.EnforcementFrame
 /-
 C02 — No holder commitment is both signed for broadcast and revoked.
 
@@ -54,6 +55,36 @@ theorem C02_after_sign_event (F : Nat → Bytes → Bytes) (ops : List Op) (post
 theorem C02_revoked_exact (F : Nat → Bytes → Bytes) (ops : List Op) (k : Nat) :
     Revoked (runH F init [] ops).2 k ↔ k + 2 ≤ (runH F init [] ops).1.mem.next :=
   (C02_inv F ops).revoked k
+
+/-! ### Frame: a refused request changes nothing (channel-level instance used by C10)
+
+`Res.isErr` = the reply is an error status (`err:policy`, `err:invalid`, `err:internal`).  `panic` is not a
+refusal (the process dies and is restored from the persisted copy).  The composites need an argument:
+`ValidateCommitmentTx(2)` = validate, then revoke / get-point / activate in one request; when the validate
+half stored the next commitment the second half can no longer be refused (`chanStep_frameE`). -/
+
+/-- **Enforcement_frame** (channel level): a refused request leaves the channel state unchanged -/
+theorem Enforcement_frame_chan (F : Nat → Bytes → Bytes) (c : Chan) (op : Op)
+    (h : (chanStep F c op).out.res.isErr = true) : (chanStep F c op).c = c :=
+  chanStep_frameE F c op h
+
+/-- **Enforcement_frame** (process, memory): `step s op = (s', err _) → s'.mem = s.mem`, for every state -/
+theorem Enforcement_frame_mem (F : Nat → Bytes → Bytes) (s s' : Sys) (op : Op) (o : Out)
+    (hs : step F s op = (s', o)) (h : o.res.isErr = true) : s'.mem = s.mem := by
+  have := step_frame_mem F s op (by rw [hs]; exact h)
+  rw [hs] at this; exact this
+
+/-- **Enforcement_frame**: `step s op = (s', err _) → s' = s` whenever the persisted copy is up to date
+    (`s.disk = s.mem`, which every persisting request re-establishes) -/
+theorem Enforcement_frame (F : Nat → Bytes → Bytes) (s s' : Sys) (op : Op) (o : Out) (hd : s.disk = s.mem)
+    (hs : step F s op = (s', o)) (h : o.res.isErr = true) : s' = s := by
+  have := step_frame F s op hd (by rw [hs]; exact h)
+  rw [hs] at this; exact this
+
+/-- the frame is not vacuous: refusals exist, and `panic` is really excluded (a panicking revoke at the
+    u64 edge has dropped `next_holder_commit_info` in memory) -/
+example : (step shaF (runH shaF init [] [.setup, .validate 0 0 true true, .activate]).1 (.revoke 5)).2.res.isErr = true := by
+  decide
 
 /-! ### The pre-fix code violated the property (kept as documentation of F1)
 
